@@ -1001,6 +1001,12 @@ func (ns *NamespaceStore) SealNamespace(ctx context.Context, path string) error 
 		return errors.New("unable to seal tainted namespace")
 	}
 
+	// Without a barrier of its own there is nothing that could be sealed (or
+	// unsealed again); we would only tear down the namespace's mounts.
+	if ns.core.sealManager.NamespaceBarrier(namespaceToSeal.Path) == nil {
+		return ErrNotSealable
+	}
+
 	parent, err := namespace.FromContext(ctx)
 	if err != nil {
 		return fmt.Errorf("failed to get parent namespace from context: %w", err)
